@@ -197,6 +197,9 @@ where
     Constraint<DataKey<D>, P>: Eq + Clone + Hash,
 {
     l.arrow();
+    if std::env::var("PM_TRACE").is_ok() {
+        eprintln!("TRACE {}", l.0);
+    }
     let mut result: Option<E2EResult> = None;
     let r = catch(|| {
         take_log();
@@ -204,6 +207,9 @@ where
         let m: Result<ManyMatcher<PT, DataKey<D>, P, D::IndexingScheme>, _> =
             ManyMatcher::try_from_patterns_with_det_heuristic(patterns.clone(), fallback, h);
         let evs = take_log();
+        if std::env::var("PM_TRACE").is_ok() {
+            eprintln!("TRACE built events={}", evs.len());
+        }
         let mut out = Line::default();
         let m = match m {
             Ok(m) => m,
@@ -250,7 +256,13 @@ where
             naive: vec![],
         };
         for h in hosts {
+            if std::env::var("PM_TRACE").is_ok() {
+                eprintln!("TRACE host");
+            }
             let ms: Vec<_> = m.find_matches(h).collect();
+            if std::env::var("PM_TRACE").is_ok() {
+                eprintln!("TRACE many done {}", ms.len());
+            }
             out.list(&ms, |l, pm| {
                 l.tok(pm.pattern.0);
                 enc_map(l, &pm.match_data);
@@ -619,7 +631,19 @@ pub fn run_table(seed: u64, thorough: bool, n: usize) {
                 vec![]
             };
             while cons.len() < nc {
-                cons.push(random_tcons(&mut rng, nkeys));
+                let mut c = random_tcons(&mut rng, nkeys);
+                if strategy == 3 {
+                    // the powerset strategy re-adds unconditioned constraints below every
+                    // branch (exponential automata); like the port-graph decomposition it is
+                    // only used on not-in / trivially true constraints
+                    while !matches!(c.predicate(), TPred::NotIn(_) | TPred::True(_)) {
+                        c = random_tcons(&mut rng, nkeys);
+                    }
+                }
+                cons.push(c);
+            }
+            if strategy == 3 {
+                cons.truncate(3);
             }
             let extra = if rng.chance(1, 6) { Some(vec![rng.below(nkeys)]) } else { None };
             pats.push(TPattern { cons, extra, convertible: !rng.chance(1, 10) });
